@@ -139,7 +139,9 @@ def load_registered_codemods(ep_filter: Optional[Callable[[EntryPoint], bool]] =
     registry = CodemodRegistry()
     logger.debug("loading registered codemod collections")
 
-    for entry_point in set(entry_points().select(group="codemods")):
+    # dict.fromkeys removes duplicates like set() but keeps a stable order: the
+    # registry (and everything derived from it) must not depend on the hash seed
+    for entry_point in dict.fromkeys(entry_points().select(group="codemods")):
         if ep_filter and not ep_filter(entry_point):
             logger.debug(
                 '- skipping codemod collection "%s" from "%s as requested"',
